@@ -34,7 +34,7 @@ PROPS = {
         "assumptions": ["the signature of the served record is checked by execution (glow.Verify over the Go signing bytes, whose layout is C15)"],
     },
     "C04": {
-        "modules": ["Gca.Props.C04"],
+        "modules": ["Gca.Props.C04", "Gca.Props.DiskBytes"],
         "tie": ["startup_order", "save_equipment_order", "save_gca_key_order", "migrate_order", "startup_catchup", "verify_keys_server",
                 "layout_auth", "layout_report", "slot_banned", "slot_duplicate", "slot_empty", "capacity"],
         "jobs": [srv("C04")],
